@@ -3,7 +3,8 @@ import copy, yaml as pyyaml
 from .. import common, gen, mergecorr
 from . import base
 
-THEOREMS = ['C02_fold', 'C02_no_key_lost', 'C02_untouched']
+THEOREMS = ['C02_fold', 'C02_no_key_lost', 'C02_untouched', 'C02_pointwise', 'C02_key_order', 'C02_untouched_at_any_depth', 'C02_merged_at_any_depth',
+            'C02_replaced_wholesale_at_any_depth', 'C02_history_no_key_lost', 'C02_history_untouched', 'C02_history_last_value_decides']
 
 
 class RefMergeError(Exception):
